@@ -3,7 +3,7 @@
    given coin schedule).  Proved: the layered Circuit with measurement layers computes exactly that trajectory for EVERY program, state and coin schedule; measurement
    layers stay in program order (no gate ever crosses one); one +-1 result per measured qubit, in order; the state stays a valid tableau.  The Born-rule content of
    a single measurement / post-selection is C06 (MeasureFacts); the model-level definitions of postselect and Circuit.backward are tied to the code by correspondence. *)
-From PC Require Import Model.Base Model.Pauli Model.Tableau Model.Circuit Model.Spec Proofs.CircuitFacts Proofs.MeasureCircuitFacts Proofs.TableauInv Proofs.MeasureFacts Proofs.ProjectionFacts.
+From PC Require Import Model.Base Model.Pauli Model.Tableau Model.Circuit Model.Spec Proofs.CircuitFacts Proofs.MeasureCircuitFacts Proofs.TableauInv Proofs.MeasureFacts Proofs.ProjectionFacts Proofs.CompileFacts Model.Poly Model.PolySem Model.Sample Proofs.TraceFacts Proofs.BackwardFacts.
 Open Scope Z_scope.
 
 Theorem C14_measurements_keep_program_order : forall prog,
@@ -54,3 +54,29 @@ Theorem C14_postselect_projects_or_leaves_unchanged : forall n t o, tableau_ok n
   (pr = 1 -> in_group n t' o /\ expect1 t o = 0) /\ (pr <> 1 -> t' = t).
 Proof. exact postselect1_spec. Qed.
 Print Assumptions C14_postselect_projects_or_leaves_unchanged.
+(* BACKWARD THROUGH MEASUREMENTS.  For every layered circuit (proper gate layers, measurement layers on qubits < n), every pure valid state and every coin schedule:
+   the forward run keeps the state pure and valid and records one result per measured qubit; the backward pass keeps it pure and valid; a measurement layer replayed
+   backward right after it ran accepts its own record and leaves the state unchanged; and the record of a whole run is NEVER rejected by the backward pass started from
+   the final state (the code raises "not possible" only for records that no run can produce from that state) -- with non-zero overlap between the state reached backward
+   and the initial state *)
+Theorem C14_forward_keeps_pure_states_valid : forall n c t coins t' res lp, Forall (mclay_ok n) c -> tableau_ok n t -> rk t = 0%nat -> bit_coins coins ->
+  mcircuit_forward c t coins = Some (t', res, lp) -> tableau_ok n t' /\ rk t' = 0%nat /\ length res = count_measured c.
+Proof. exact mcircuit_forward_pure. Qed.
+Print Assumptions C14_forward_keeps_pure_states_valid.
+Theorem C14_backward_keeps_pure_states_valid : forall n c t record t', Forall (mclay_ok n) c -> tableau_ok n t -> rk t = 0%nat ->
+  mcircuit_backward c t record = Some t' -> tableau_ok n t' /\ rk t' = 0%nat.
+Proof. exact mcircuit_backward_ok. Qed.
+Print Assumptions C14_backward_keeps_pure_states_valid.
+Theorem C14_layer_accepts_its_own_record : forall n t qs coins, tableau_ok n t -> rk t = 0%nat -> bit_coins coins -> Forall (fun q => (q < n)%nat) qs ->
+  let '(t', res, lp, coins') := mlayer_forward t qs coins in mlayer_backward t' qs res = Some t'.
+Proof. exact mlayer_backward_after_forward. Qed.
+Print Assumptions C14_layer_accepts_its_own_record.
+Theorem C14_backward_accepts_every_produced_record : forall n c t coins t' res lp, Forall (mclay_ok n) c -> tableau_ok n t -> rk t = 0%nat -> bit_coins coins ->
+  mcircuit_forward c t coins = Some (t', res, lp) -> exists tb, mcircuit_backward c t' res = Some tb.
+Proof. exact forward_record_is_accepted. Qed.
+Print Assumptions C14_backward_accepts_every_produced_record.
+Theorem C14_backward_state_overlaps_the_initial_state : forall n c t coins t' res lp, Forall (mclay_ok n) c -> tableau_ok n t -> rk t = 0%nat -> bit_coins coins ->
+  mcircuit_forward c t coins = Some (t', res, lp) ->
+  exists tb, mcircuit_backward c t' res = Some tb /\ tableau_ok n tb /\ rk tb = 0%nat /\ trace_sem n (pmulp (density_poly tb) (density_poly t)) <> c0.
+Proof. exact forward_record_backward_overlap. Qed.
+Print Assumptions C14_backward_state_overlaps_the_initial_state.
